@@ -133,6 +133,24 @@ CHECKS = {
              "histories across _MAXCACHE each compared with cold-cache runs.",
         design="6/C08, 7 (D6)", note="partial: relaxed-denotation theorem not proved in Coq (C08_relaxed_den_full visible).",
         technique="Coq proof (matcher, cache invariant) + refutation + correspondence with denotational spec evaluated in Coq"),
+    "C10": dict(
+        text="Theorems: export with default iterators = structural map of the tree cut at maxlevel (bookkeeping keys from "
+             "the extracted skip list dropped, 'children' iff non-empty, fuel sufficient); import_(export(t)) = t cut at "
+             "maxlevel (shape, child order, attributes); export(import_(d)) = d up to empty 'children' lists. attriter / "
+             "childiter variants are in the model and tied by correspondence. Tie: every shape <= 5 nodes x random "
+             "attribute dictionaries x maxlevel x attriter x childiter x dictcls x {AnyNode, Node, user NodeMixin}, both "
+             "directions, arbitrary dictionaries, arguments deep-copied and compared.",
+        design="6/C10", note="values are opaque tokens; node classes with an instance __dict__.",
+        technique="Coq proof (mutual inverse theorems) + correspondence"),
+    "C11": dict(
+        text="Theorems: export = dumps of the dict export for the maxlevel in force; write/read same as export/import_; "
+             "round trip under the codec hypothesis loads(dumps d) = d (a Section hypothesis - CPython's json is not "
+             "modelled; the harness checks the hypothesis on every exported value). Tie: C10's trees with JSON values "
+             "(non-ASCII, control characters, nested, None, booleans, big ints, floats) x option sets x maxlevel x "
+             "custom/default dictexporter, write/read via StringIO and a real file, text compared with json.dumps of the "
+             "dict export.",
+        design="6/C11", note="partial by nature: codec assumed (checked on explored values).",
+        technique="Coq proof parametrised by the codec + correspondence"),
 }
 
 NOT_YET = "check not built yet in this round (work in progress; see DESIGN.md section 6 for the plan)"
